@@ -62,7 +62,7 @@ RUNTIME_NOTE = ("Partial with respect to the Go runtime: goroutines are interlea
                 "such an operation, the Go memory model and the garbage collector are not modelled. Race-freedom is argued from regenerated syntactic facts "
                 "and observed with the race detector in the thorough tier, not proved.")
 PROPS["C10"] = {
-    "families": ["C10"], "modules": ["C10", "C10b"],
+    "families": ["C10"], "modules": ["C10", "C10b", "C10c"],
     "gen_deps": [],
     "race": True,
     "rule": "real util.MessageStream driven through NewMessageStream with a scripted in-memory connection and a recording parser (or the real "
@@ -139,7 +139,7 @@ PROPS["C01"] = {
     "assumptions": COMMON_ASSUMPTIONS,
 }
 PROPS["C02"] = {
-    "modules": ["C02", "C02b"],
+    "modules": ["C02", "C02b", "C02c"],
     "families": ["OF"], "ops": "api,apix,enc,prog,rtparse,rtw", "gen_deps": [],
     "rule": ENC_RULE, "trivial_outputs": ["panic", "err"],
     "level_text": "Kernel-checked (Props/C02.lean + C02b.lean, 153 theorems): every message / action / Nicira subtype / instruction / OXM class / vendor code regenerated from the Go constants equals the specification's; rounded sizes are the least multiple of 8; Match.AddField invariant for any history; and per element kind — 7 standard actions, set-field, 16 Nicira actions incl. conntrack with nested actions, NAT with its range setters, learn and its specs, note, reg_load2; OXM fields of all 30 payload kinds masked or not; match; instructions; bucket; hello element; TLV map; bundle property — X_wire (type / length / vendor / subtype words at offsets 0/2/4/8, bytes written), X_ok (declared length = occupied bytes, multiple of 8, padding zero, specification codes) for well-formed values and X_new_wf (each constructor and setter establishes well-formedness); through the Action / Instruction interfaces for all 23 kinds (Declares); WALK theorems: a receiver using only declared lengths visits exactly the element encodings and ends at the last byte, for apply-actions, buckets, conntrack and whole flow-mods. Proved counterexamples for what no constructor builds (4-byte header-only actions, InstrMeter, tun_metadata above 124 bytes, hello element with an even number of bitmaps). Oracle: an independent receiver written only from the wire grammar (Spec.walk: declared lengths, alignment, zero padding, legal codes and widths, ends exactly at the end) walks the implementation's bytes of every API-built message / element and must visit exactly the elements the value holds, in order.",
@@ -147,7 +147,7 @@ PROPS["C02"] = {
     "assumptions": COMMON_ASSUMPTIONS,
 }
 PROPS["C03"] = {
-    "modules": ["C03", "C03b"],
+    "modules": ["C03", "C03b", "C03c"],
     "families": ["OF"], "ops": "api,apix,enc,prog", "gen_deps": [],
     "rule": ENC_RULE, "trivial_outputs": ["panic", "err"],
     "level_text": "Kernel-checked (Props/C03.lean + C03b.lean, 68 theorems): LayoutHolds K v bs := every row of the specification table Spec.layouts for kind K (field name, offset, width) holds of the encoding — proved for all 36 kinds of the table whose rows are true: standard actions, 11 Nicira actions incl. the NAT fixed part, instructions, flow-mod, group-mod, bucket, packet-out, port-mod, set-config, multipart request and bodies, vendor payloads, bundle-add; match-field placement (header word, experimenter id exactly when present, value then mask exactly when HasMask); list order (k-th child intact at start + sum of the sizes before it) for match fields, actions, buckets, instructions, conntrack actions, TLV maps, learn specs; NAT optional parts in presence-bit order exactly when set. Proved counterexamples for the rows that are false: 16-bit port_no of the stats requests (known finding D44), stub kinds InstrMeter / ActionMplsTtl / ActionNwTtl (no constructor). Oracle: specification layout tables (Spec.layouts: offset, width per field of every message, action, instruction, bucket, vendor payload; OXM payload = value||mask in the field's width; NAT optional parts by presence bits in OVS order; learn-spec header packing; header words of register fields) applied to the implementation's bytes of every API-built value, element by element along the grammar walk.",
@@ -156,7 +156,7 @@ PROPS["C03"] = {
 }
 PROPS["C06"] = {
     "modules": ["C06", "C06b", "C06c"],
-    "families": ["OF"], "ops": "api,apix,enc,prog,embed,embedw,rtrip,rtparse,rtw", "gen_deps": [],
+    "families": ["OF"], "ops": "api,apix,enc,prog,embed,embedw,rtrip,rtparse,rtw,dhcpsz", "gen_deps": [],
     "rule": ENC_RULE, "trivial_outputs": ["panic", "err"],
     "level_text": "Theorems: fill_exact / fill_length — the make(Len())+copy idiom returns exactly Len() bytes and, when the pieces fit, their concatenation plus zero padding (the general lemma every container theorem instantiates); all 30 match-payload kinds: size = encoding length and neither call modifies the value; match field and match: encoding length = reported size for any content, match size multiple of 8. Oracle: reported size before and after encoding = bytes produced, on every API-built value of every kind. C06b (≈ 100 theorems): the same for every OpenFlow action, instruction, bucket and message kind incl. the containers (children embedded intact). C06c (≈ 85 theorems): size = bytes for EVERY value of every packet kind (VLAN, Ethernet, ARP, IPv4, ICMP, UDP, TCP, IPv6 and its extension headers, IGMP, DHCP, LLDP) through the payload dispatch at every depth, and children-intact for every container under its exact consistency condition (IHL·4 = 20 + |options|, 8·(HEL+1) = 2 + Σ option sizes, …) with a concrete witness that each condition is necessary. Oracles also on the values the decoders build (rtrip / rtparse / rtw) and on packet headers (embed / embedw).",
     "level_note": OF_NOTE,
@@ -240,5 +240,20 @@ PROPS["C04"] = {
     "level_note": OF_NOTE + " Known findings D50 (echo payload dropped) and D51 (OpenFlow 1.0 layouts of table/port/queue stats records, port descriptions not decoded). The theorems are about the code after the repairs b558ac9 (hello elements), 83afeb1 (port-status, description strings) found by this check.",
     "assumptions": COMMON_ASSUMPTIONS + ["OpenFlow 1.3.5, nicira-ext.h and ONF bundle extension layouts transcribed from memory, twice and independently: in the Lean statements and in the Go encoder"],
 }
+
+# ---- later prover rounds (text appended to the level descriptions) -------------------------------------------------
+PROPS["C10"]["level_text"] += (" C10c (frame locality, 23 statements over ~180 lemmas): the result of a decoder depends only on the visible bytes of the "
+    "slice it is given, never on what the recycled buffer holds behind the frame — proved for every packet-header decoder (Ethernet, VLAN, ARP, IPv4, IPv6 and "
+    "extension headers, ICMP, TCP, UDP, IGMP, DHCP options), matches and all match-field payloads, and for Parse on every message kind except flow-mod and "
+    "multipart reply (experimenter frames whose declared length fits the slice); with PROVED counterexamples where it is false (a header on 4..7 bytes, a vendor "
+    "frame shorter than its own length field, and a TLV-table reply whose body is shorter than 16 bytes: its reserved field is filled from the bytes behind the frame).")
+PROPS["C02"]["level_text"] += (" C02c: the REAL specification walker (Spec.walk…, incl. minimum lengths, zero padding, alignment, type codes) accepts the model's "
+    "encoding and returns one subtree per child, for every hello (any list of version-bitmap elements; whole message through Spec.walk), TLV-table-mod (any list "
+    "of maps), any list of bundle properties, and per action kind / bucket / group-mod / packet-out as far as the file states.")
+PROPS["C03"]["level_text"] += (" C03c (API histories, induction over ALL call sequences): conntrack builder (flags accumulate, zone and table of the last call, "
+    "ZoneImm clears the zone source, nested actions in call order — on the bytes at their offsets); NAT builder (flag setters, presence bit set iff the setter was "
+    "called, value of the last call, optional parts in specification order whatever the call order, stored length = 16 + widths of the ranges present also with "
+    "repeated setters and Len() interleaved — the statement whose failure exposed the repaired defect 5e9a43b); adders of bucket / group-mod / flow-mod / packet-out / "
+    "match: children in call order at offset = fixed part + sizes of the earlier children.")
 
 NOT_YET = {}
